@@ -205,3 +205,127 @@ Proof.
   destruct (find_site "Server.user" sites) as [u|]; [|discriminate].
   exists d, u. repeat split. exact Hc.
 Qed.
+
+(* ------------------------------------------------------------------------------------------
+   Part 2: Server.throttle_per_user over a HISTORY of sessions.
+
+   Server.user():   if connection.user not in self.throttle_per_user:
+                        self.throttle_per_user[connection.user] = StreamThrottle.from_limits(..)
+                    connection.command_connection.throttles.update(
+                        user_global=self.throttle_per_user[connection.user], ...)
+   and nothing ever removes an entry (translator fact per_user_never_removed; any other use of the
+   attribute makes the translator fail closed).  `pop` = "the entry of the user is dropped when one
+   of its connections closes" is the parameter that fact instantiates with false.
+
+   users, connections and objects are naturals; an object id is its creation index. *)
+Close Scope Z_scope.
+
+Inductive hev :=
+| Login (c u : nat)     (* connection c completes a login as user u (a re-login replaces its entry) *)
+| Logout (c : nat).     (* connection c closes *)
+
+Record reg := mkR {
+  r_map : list (nat * nat);              (* throttle_per_user: user -> object *)
+  r_next : nat;                          (* next fresh object *)
+  r_sess : list (nat * (nat * nat)) }.   (* live logged-in connections: c -> (user, object under "user_global") *)
+
+Definition lookup {B} (k : nat) (l : list (nat * B)) : option B :=
+  match find (fun p => Nat.eqb (fst p) k) l with Some p => Some (snd p) | None => None end.
+
+Definition drop {B} (k : nat) (l : list (nat * B)) : list (nat * B) :=
+  filter (fun p => negb (Nat.eqb (fst p) k)) l.
+
+Definition reg0 : reg := mkR [] 0 [].
+
+Definition hstep (pop : bool) (r : reg) (e : hev) : reg :=
+  match e with
+  | Login c u =>
+      match lookup u (r_map r) with
+      | Some o => mkR (r_map r) (r_next r) ((c, (u, o)) :: drop c (r_sess r))
+      | None => mkR ((u, r_next r) :: r_map r) (S (r_next r))
+                    ((c, (u, r_next r)) :: drop c (r_sess r))
+      end
+  | Logout c =>
+      match lookup c (r_sess r) with
+      | Some (u, _) => mkR (if pop then drop u (r_map r) else r_map r) (r_next r) (drop c (r_sess r))
+      | None => r
+      end
+  end.
+
+Definition hrun (pop : bool) (h : list hev) : reg := fold_left (hstep pop) h reg0.
+
+Record RInv (r : reg) : Prop := mkRInv {
+  ri_sess : forall c u o, In (c, (u, o)) (r_sess r) -> lookup u (r_map r) = Some o;
+  ri_lt : forall u o, lookup u (r_map r) = Some o -> o < r_next r;
+  ri_inj : forall u1 u2 o, lookup u1 (r_map r) = Some o -> lookup u2 (r_map r) = Some o -> u1 = u2 }.
+
+Lemma lookup_cons : forall B k k' (v : B) l,
+  lookup k ((k', v) :: l) = if Nat.eqb k' k then Some v else lookup k l.
+Proof. intros. unfold lookup. cbn [find fst snd]. destruct (Nat.eqb k' k); reflexivity. Qed.
+
+Lemma In_drop : forall B k (l : list (nat * B)) p, In p (drop k l) -> In p l.
+Proof. intros B k l p H. unfold drop in H. apply filter_In in H. tauto. Qed.
+
+Lemma RInv_step : forall r e, RInv r -> RInv (hstep false r e).
+Proof.
+  intros r [c u|c] [Is Il Ii]; cbn [hstep].
+  - destruct (lookup u (r_map r)) as [o|] eqn:Hu.
+    + constructor; cbn [r_map r_next r_sess]; try assumption.
+      intros c' u' o' [H|H]; [inversion H; subst; exact Hu|].
+      apply In_drop in H. eapply Is. exact H.
+    + constructor; cbn [r_map r_next r_sess].
+      * intros c' u' o' [H|H].
+        -- inversion H; subst. rewrite lookup_cons, Nat.eqb_refl. reflexivity.
+        -- apply In_drop in H. pose proof (Is _ _ _ H) as Hl. rewrite lookup_cons.
+           destruct (Nat.eqb u u') eqn:E; [|exact Hl].
+           apply Nat.eqb_eq in E. subst u'. congruence.
+      * intros u' o' H. rewrite lookup_cons in H. destruct (Nat.eqb u u').
+        -- inversion H; subst. apply Nat.lt_succ_diag_r.
+        -- apply Nat.lt_lt_succ_r. eapply Il. exact H.
+      * intros u1 u2 o' H1 H2. rewrite lookup_cons in H1, H2.
+        destruct (Nat.eqb u u1) eqn:E1, (Nat.eqb u u2) eqn:E2.
+        -- apply Nat.eqb_eq in E1, E2. congruence.
+        -- inversion H1; subst. apply Il in H2. exfalso. exact (Nat.lt_irrefl _ H2).
+        -- inversion H2; subst. apply Il in H1. exfalso. exact (Nat.lt_irrefl _ H1).
+        -- eapply Ii; eassumption.
+  - destruct (lookup c (r_sess r)) as [[u o]|]; [|constructor; assumption].
+    constructor; cbn [r_map r_next r_sess]; try assumption.
+    intros c' u' o' H. apply In_drop in H. eapply Is. exact H.
+Qed.
+
+Lemma RInv_run : forall h r, RInv r -> RInv (fold_left (hstep false) h r).
+Proof.
+  induction h as [|e h IH]; intros r I; cbn [fold_left]; [exact I|].
+  apply IH. apply RInv_step. exact I.
+Qed.
+
+Lemma RInv_0 : RInv reg0.
+Proof. constructor; cbn; intros; try contradiction; discriminate. Qed.
+
+(* after ANY history of logins (incl. re-logins) and disconnects, two live sessions hold the same
+   per-user object iff they are logged in as the same user: a per-user limit is shared by exactly
+   that user's sessions (and so bounds their sum, C15_sys_shared_bound) *)
+Theorem per_user_shared_over_histories : forall h c1 u1 o1 c2 u2 o2,
+  In (c1, (u1, o1)) (r_sess (hrun false h)) ->
+  In (c2, (u2, o2)) (r_sess (hrun false h)) ->
+  (u1 = u2 <-> o1 = o2).
+Proof.
+  intros h c1 u1 o1 c2 u2 o2 H1 H2.
+  destruct (RInv_run h reg0 RInv_0) as [Is Il Ii]. fold (hrun false h) in *.
+  pose proof (Is _ _ _ H1) as L1. pose proof (Is _ _ _ H2) as L2. split; intros E.
+  - subst u2. congruence.
+  - subst o2. eapply Ii; eassumption.
+Qed.
+
+(* what goes wrong if entries are dropped at disconnect: c1 stays, c2 comes and goes, c3 logs in *)
+Definition pop_history : list hev := [Login 1 0; Login 2 0; Logout 2; Login 3 0].
+
+Theorem per_user_pop_refuted :
+  exists o1 o3, In (1, (0, o1)) (r_sess (hrun true pop_history)) /\
+                In (3, (0, o3)) (r_sess (hrun true pop_history)) /\ o1 <> o3.
+Proof. exists 0, 1. vm_compute. repeat split; auto. discriminate. Qed.
+
+(* non-vacuity: the same history without the drop; both sessions hold object 0 *)
+Example per_user_history_example :
+  r_sess (hrun false pop_history) = [(3, (0, 0)); (1, (0, 0))].
+Proof. reflexivity. Qed.
